@@ -60,7 +60,9 @@ impl SchedCase {
 }
 
 const OP_START: u16 = 100;
-const STEP_BUDGET: u32 = 400_000;
+const STEP_BUDGET: u32 = 60_000;
+/// consecutive full-queue retries of one thread while nobody else can run
+const SPIN_BUDGET: u32 = 1_500;
 
 struct AbortCase;
 
@@ -82,6 +84,7 @@ struct St {
     events: Vec<(u32, usize, u16)>,
     trace_events: bool,
     max_map_len: usize,
+    lonely_spins: u32,
 }
 
 struct Shared {
@@ -224,7 +227,13 @@ impl Shared {
             st.retry_yields += 1;
             let others = Self::others_runnable(&st, me);
             if let Some(t) = others.first().copied() {
+                st.lonely_spins = 0;
                 let _st = self.switch_to(st, me, t);
+            } else {
+                st.lonely_spins += 1;
+                if st.lonely_spins > SPIN_BUDGET {
+                    self.abort(st, "C09", format!("thread {me} retried a full write queue {SPIN_BUDGET} times in a row while no other thread could run: the insert never performs the pending maintenance (livelock)"));
+                }
             }
             return;
         }
